@@ -679,7 +679,10 @@ class GLRParser(Parser):
                     "glr_recover", parser=self, head=head, error=error, successful=successful
                 )
             if successful:
-                error.location.end_position = head.position
+                # Heads may be recovered at different positions. The end of
+                # the error span only moves forward.
+                if head.position > error.location.end_position:
+                    error.location.end_position = head.position
                 if debug:
                     a_print(
                         "New position is ",
